@@ -795,6 +795,7 @@ static bool rejection_documented(CompDef const &c, CaseId const &id, std::string
 // ------------------------------------------------------------------------------------------------
 // enumeration
 // ------------------------------------------------------------------------------------------------
+static long g_pairs_dropped = 0, g_pairs_total = 0;
 static std::vector<CaseId> pairwise_cover(std::vector<CompDef> const &C, std::vector<int> const &opts, std::vector<int> const &biases)
 {
   // factors: 0 comp, 1 opt, 2 comb, 3 bias, 4 geom, 5 cell.  Greedy all-pairs with the validity constraints
@@ -816,6 +817,7 @@ static std::vector<CaseId> pairwise_cover(std::vector<CompDef> const &C, std::ve
   for (int f1 = 0; f1 < 6; f1++) for (int f2 = f1 + 1; f2 < 6; f2++)
     for (int v1 : vals[f1]) for (int v2 : vals[f2]) if (valid(f1, v1, f2, v2)) uncovered.insert({f1, v1, f2, v2});
   std::vector<CaseId> out;
+  g_pairs_total = uncovered.size();
   while (!uncovered.empty()) {
     std::vector<int> seed = *uncovered.begin();
     int t[6] = {-1, -1, -1, -1, -1, -1};
@@ -845,6 +847,7 @@ static std::vector<CaseId> pairwise_cover(std::vector<CompDef> const &C, std::ve
     if (!opt_valid(C[t[0]], (Opt) t[1]) || !comb_valid(C[t[0]], (Comb) t[2])) {
       // cannot complete this seed consistently: drop the pair (only happens if the seed itself conflicts)
       uncovered.erase(seed);
+      g_pairs_dropped++;
       continue;
     }
     for (int f1 = 0; f1 < 6; f1++) for (int f2 = f1 + 1; f2 < 6; f2++) uncovered.erase({f1, t[f1], f2, t[f2]});
@@ -1017,15 +1020,18 @@ int main(int argc, char **argv)
 
   Result total;
   bool exhaustive = true;
-  double budget = thorough ? 1000.0 : 1e9;   // a level is started only if it is expected to end before this (seconds)
+  double budget = thorough ? 900.0 : 1e9;   // a level is started only if it is expected to end before this (seconds)
   std::vector<double> level_cost;
   for (size_t L = 0; L < levels.size(); L++) {
     std::vector<CaseId> const &cases = levels[L];
     if (L > 0) {
       // start the level only if it is expected to finish (cost per case measured on the previous levels)
       double el = now() - t_start;
-      double per_case = level_cost.back();   // measured on the level just completed
-      double expect = 1.15 * per_case * cases.size();
+      // average cost per case over everything run so far, with a 1.5 safety factor (the machine may get busier)
+      size_t done_cases = 0;
+      for (size_t M = 0; M < L; M++) done_cases += levels[M].size();
+      double per_case = done_cases ? el / done_cases : 0.1;
+      double expect = 1.5 * per_case * cases.size();
       if (el + expect > budget) {
         exhaustive = false;
         size_t rest = 0;
@@ -1163,6 +1169,8 @@ int main(int argc, char **argv)
       if (l.size()) na += " " + c.id + "{" + l + "}";
     }
     total.notes.insert(total.notes.begin(), "group options not applicable (not enumerated):" + na);
+    total.notes.insert(total.notes.begin(), "all-pairs covering of level 1: " + std::to_string(g_pairs_total) + " valid value pairs of the six factors, " +
+                       std::to_string(g_pairs_dropped) + " could not be placed in a valid case");
   }
   // aggregate the per-case notes by kind (the driver keeps 20 notes)
   {
